@@ -101,11 +101,28 @@ impl ContinuityStreamCache {
         message_ordinal_index_path_v1(&self.dir, continuity_id)
     }
 
+    /// Exists exactly while the authority updates a thread's cache family (one frame touches up
+    /// to nine files). A process that dies in between leaves it behind, and the next authority
+    /// drops that family (`drop_dirty_families_best_effort`).
+    fn dirty_marker_path(&self, continuity_id: &str) -> PathBuf {
+        self.dir.join(format!("{continuity_id}.dirty"))
+    }
+
     pub(crate) fn append_best_effort(&self, event: &Event) {
         if event.stream_kind() != StreamKind::Continuity {
             return;
         }
 
+        let _ = fs::create_dir_all(&self.dir);
+        let marker = self.dirty_marker_path(event.stream_id());
+        if File::create(&marker).is_err() {
+            return;
+        }
+        self.append_members_best_effort(event);
+        let _ = fs::remove_file(marker);
+    }
+
+    fn append_members_best_effort(&self, event: &Event) {
         let continuity_id = event.stream_id();
         let path = self.path_for(continuity_id);
         if let Some(parent) = path.parent() {
@@ -195,21 +212,55 @@ impl ContinuityStreamCache {
         ) {
             lagging |= lags(self.compaction_checkpoints_path_for_v1(continuity_id));
         }
-        if !lagging {
-            return;
+        if lagging {
+            self.remove_family_best_effort(continuity_id);
         }
+    }
+
+    /// Crash recovery: drops every cache family that a previous authority was in the middle of
+    /// updating when it died; it is rebuilt from the truth log on demand.
+    pub(crate) fn drop_dirty_families_best_effort(&self) {
+        let Ok(entries) = fs::read_dir(&self.dir) else {
+            return;
+        };
+        let dirty: Vec<String> = entries
+            .flatten()
+            .filter_map(|entry| {
+                let name = entry.file_name().to_string_lossy().to_string();
+                name.strip_suffix(".dirty").map(str::to_string)
+            })
+            .collect();
+        for continuity_id in dirty {
+            self.remove_family_best_effort(&continuity_id);
+        }
+    }
+
+    fn remove_family_best_effort(&self, continuity_id: &str) {
         let prefix = format!("{continuity_id}.");
+        let marker = self.dirty_marker_path(continuity_id);
         let Ok(entries) = fs::read_dir(&self.dir) else {
             return;
         };
         for entry in entries.flatten() {
-            if entry.file_name().to_string_lossy().starts_with(&prefix) {
+            if entry.file_name().to_string_lossy().starts_with(&prefix) && entry.path() != marker {
                 let _ = fs::remove_file(entry.path());
             }
         }
+        // Last: dying half-way through must leave the marker behind.
+        let _ = fs::remove_file(marker);
     }
 
     pub(crate) fn rebuild_best_effort(&self, continuity_id: &str, events: &[Event]) {
+        let _ = fs::create_dir_all(&self.dir);
+        let marker = self.dirty_marker_path(continuity_id);
+        if File::create(&marker).is_err() {
+            return;
+        }
+        self.rebuild_members_best_effort(continuity_id, events);
+        let _ = fs::remove_file(marker);
+    }
+
+    fn rebuild_members_best_effort(&self, continuity_id: &str, events: &[Event]) {
         let path = self.path_for(continuity_id);
         if let Some(parent) = path.parent() {
             let _ = fs::create_dir_all(parent);
